@@ -860,7 +860,7 @@ class Interp:
             self.mem.store(args[1].base, args[1].off, tm.fn(base + '.out', [x], ow))
             self.setv(ins, tm.fn(base + '.ret', [x], ty_bits(ty)))
             return
-        self._opaque_call(ins, name, args, ty)
+        self._opaque_call(ins, name, args, ty, ins.get('pattr'))
 
     def _fn(self, base, args, w):
         if base == 'sqrt':
@@ -875,7 +875,7 @@ class Interp:
             return tm.arith('maxnum', args[0], args[1])
         return tm.fn(base, args, w)
 
-    def _opaque_call(self, ins, name, args, ty):
+    def _opaque_call(self, ins, name, args, ty, pattr=None):
         """unknown callee: result is an opaque function of its value arguments and of the memory its
         pointer arguments point to; memory behind pointer arguments is havoced (named by the call)"""
         self.ncall += 1
@@ -884,10 +884,16 @@ class Interp:
         for i, a in enumerate(args):
             if isinstance(a, Ptr):
                 size = self._obj_size(a)
+                ro = False
+                if pattr and i < len(pattr) and pattr[i][0]:
+                    # reference parameter: the callee may access exactly dereferenceable(N) bytes
+                    size = pattr[i][0] if size is None else min(size, pattr[i][0])
+                    ro = bool(pattr[i][1])
                 if size is None:
                     raise Unsupported('call %s with pointer to object of unknown size' % name)
                 vals.append(self.mem.load(a.base, a.off, size))
-                ptrs.append((i, a, size))
+                if not ro and not (pattr and i < len(pattr) and pattr[i][0] and self._is_const_ref(name, i)):
+                    ptrs.append((i, a, size))
             elif isinstance(a, list):
                 vals.extend(a)
             else:
@@ -899,6 +905,15 @@ class Interp:
             self.mem.store(a.base, a.off, tm.mk('callout', (call, i), size * 8))
         if w:
             self.setv(ins, call)
+
+    def _is_const_ref(self, mangled, i):
+        """Itanium mangling: RK<type> is a reference to const — the callee cannot write through it"""
+        m = re.search(r'E((?:RK.|[a-zA-Z]|P.|R.)+)$', mangled)
+        if not m:
+            return False
+        # split the parameter list into single-parameter encodings (enough for builtin scalar references)
+        ps = re.findall(r'RK[a-z]|PK[a-z]|R[a-z]|P[a-z]|[a-z]', m.group(1))
+        return i < len(ps) and ps[i].startswith(('RK', 'PK'))
 
     def _obj_size(self, p):
         b = p.base
